@@ -127,6 +127,11 @@ func allocCheck(name string, sw *schedWorld, x *sched.Exec, final bool) []sched.
 		if mayBeFreed {
 			continue
 		}
+		if prev, dup := holder[g.ip]; dup && prev.handle == g.handle && g.handle != "" {
+			// the same handle asking again is the same owner (idempotent re-assignment under a
+			// per-handle limit returns the address the handle already holds): not a second owner
+			continue
+		}
 		if prev, dup := holder[g.ip]; dup {
 			bad("address-given-twice", fmt.Sprintf("%s was handed to %s (handle %s) and to %s (handle %s), neither released", g.ip, prev.who, prev.handle, g.who, g.handle))
 		}
